@@ -219,8 +219,8 @@ Q q_ct_cs() { Pre s = mk(); CH* q = symz(M_); vf_assert(k_ct_cs(s.o, q) == (HS.f
 // replace: std semantics (pos <= size(); count clamps to size()-pos; the size changes by len2 - count)
 Q q_repl_pcs() { Pre s = mk(); Pre t = mk_other(); sz pos = vf_nd_u64(), c = vf_nd_u64(); vf_assume(pos <= N_); VF_KNOWN(C04_replace_keeps_size, mn(c, N_ - pos) != M_ || c > CAP + 1 - pos /* forms data()+pos+count unclamped: past the buffer */); CHK_KNOWN(C04_replace_contract, pos + c >= N_ || pos + c < pos); RET(k_repl_pcs(s.o, pos, c, t.o), s.o); post(s.o, m_replace<CH, CAP>(s.p, N_, pos, c, t.p, M_)); keep(t, M_); }
 Q q_repl_its() { Pre s = mk(); Pre t = mk_other(); sz f = vf_nd_u64(), l = vf_nd_u64(); vf_assume(f <= l && l <= N_); VF_KNOWN(C04_replace_keeps_size, l - f != M_); RET(k_repl_its(s.o, f, l, t.o), s.o); post(s.o, m_replace<CH, CAP>(s.p, N_, f, l - f, t.p, M_)); keep(t, M_); }
-Q q_repl_pcspc() { Pre s = mk(); Pre t = mk_other(); sz pos = vf_nd_u64(), c = vf_nd_u64(), p2 = vf_nd_u64(), c2 = vf_nd_u64(); vf_assume(pos <= N_ && p2 <= M_); VF_KNOWN(C04_replace_keeps_size, mn(c, N_ - pos) != mn(c2, M_ - p2) || pos + c < pos || p2 + c2 < p2); CHK_KNOWN(C04_replace_contract, pos >= N_ || p2 >= M_); RET(k_repl_pcspc(s.o, pos, c, t.o, p2, c2), s.o); post(s.o, m_replace<CH, CAP>(s.p, N_, pos, c, t.p + p2, mn(c2, M_ - p2))); keep(t, M_); }
-Q q_repl_pcsp() { Pre s = mk(); Pre t = mk_other(); sz pos = vf_nd_u64(), c = vf_nd_u64(), p2 = vf_nd_u64(); vf_assume(pos <= N_ && p2 <= M_); VF_KNOWN(C04_replace_keeps_size, mn(c, N_ - pos) != M_ - p2 || pos + c < pos || p2 > 0); CHK_KNOWN(C04_replace_contract, pos >= N_ || p2 >= M_); RET(k_repl_pcsp(s.o, pos, c, t.o, p2), s.o); post(s.o, m_replace<CH, CAP>(s.p, N_, pos, c, t.p + p2, M_ - p2)); keep(t, M_); }
+Q q_repl_pcspc() { Pre s = mk(); Pre t = mk_other(); sz pos = vf_nd_u64(), c = vf_nd_u64(), p2 = vf_nd_u64(), c2 = vf_nd_u64(); vf_assume(pos <= N_ && p2 <= M_); VF_KNOWN(C04_replace_keeps_size, mn(c, N_ - pos) != mn(c2, M_ - p2) || (pos + c < pos && p2 + c2 < p2)); CHK_KNOWN(C04_replace_contract, pos >= N_ || p2 >= M_); RET(k_repl_pcspc(s.o, pos, c, t.o, p2, c2), s.o); post(s.o, m_replace<CH, CAP>(s.p, N_, pos, c, t.p + p2, mn(c2, M_ - p2))); keep(t, M_); }
+Q q_repl_pcsp() { Pre s = mk(); Pre t = mk_other(); sz pos = vf_nd_u64(), c = vf_nd_u64(), p2 = vf_nd_u64(); vf_assume(pos <= N_ && p2 <= M_); VF_KNOWN(C04_replace_keeps_size, mn(c, N_ - pos) != M_ - p2 || (pos + c < pos && p2 > 0)); CHK_KNOWN(C04_replace_contract, pos >= N_ || p2 >= M_); RET(k_repl_pcsp(s.o, pos, c, t.o, p2), s.o); post(s.o, m_replace<CH, CAP>(s.p, N_, pos, c, t.p + p2, M_ - p2)); keep(t, M_); }
 Q q_repl_pcpc() { Pre s = mk(); CH* q = sym(M_); sz pos = vf_nd_u64(), c = vf_nd_u64(), c2 = vf_nd_u64(); vf_assume(pos <= N_ && c2 <= M_); VF_KNOWN(C04_replace_keeps_size, mn(c, N_ - pos) != c2); CHK_KNOWN(C04_replace_contract, pos + c >= N_ || pos + c < pos); RET(k_repl_pcpc(s.o, pos, c, q, c2), s.o); post(s.o, m_replace<CH, CAP>(s.p, N_, pos, c, q, c2)); }
 Q q_repl_itpc() { Pre s = mk(); CH* q = sym(M_); sz f = vf_nd_u64(), l = vf_nd_u64(), c2 = vf_nd_u64(); vf_assume(f <= l && l <= N_ && c2 <= M_); VF_KNOWN(C04_replace_keeps_size, l - f != c2); RET(k_repl_itpc(s.o, f, l, q, c2), s.o); post(s.o, m_replace<CH, CAP>(s.p, N_, f, l - f, q, c2)); }
 #ifdef HAVE_REPL_CS
@@ -291,17 +291,28 @@ static unsigned rel6(SV a, SV b) { return unsigned(a == b) | unsigned(a != b) <<
 Q q_rel_ss() { Pre s = mk(); Pre t = mk2(); vf_assert(k_rel_ss(s.o, t.o) == rel6(HS, SV(t.p, M_)), "str OP str == std for all six operators"); keep(s, N_); }
 Q q_rel_scs() { Pre s = mk(); CH* q = symz(M_); vf_assert(k_rel_scs(s.o, q) == rel6(HS, SV(q, M_)), "str OP cstr == std for all six operators"); keep(s, N_); }
 Q q_rel_css() { Pre s = mk(); CH* q = symz(M_); vf_assert(k_rel_css(q, s.o) == rel6(SV(q, M_), HS), "cstr OP str == std for all six operators"); keep(s, N_); }
+// the expected result is the subsequence of kept characters: walked with a read cursor (no write at a symbolic position)
+static void filtered(Pre const& s, bool const* drop, sz removed, sz got)
+{
+    inv(s.o);
+    vf_assert(got == removed, "erase/erase_if returns the number of erased characters");
+    vf_assert(k_size(s.o) == N_ - removed, "size() == std");
+    if (k_size(s.o) == N_ - removed) {
+        CH const* d = k_data(s.o); sz j = 0;
+        for (sz i = 0; i < N_; i++) if (!drop[i]) { vf_assert(d[j] == s.p[i], "contents == std"); j++; }
+    }
+}
 Q q_erase_val()
 {
-    Pre s = mk(); CH v = nd_ch(); Md r; r.n = 0; r.fits = true;
-    for (sz i = 0; i < N_; i++) if (!(s.p[i] == v)) r.d[r.n++] = s.p[i];
-    CHK_KNOWN(C04_erase_all_contract, r.n == 0);
-    vf_assert(k_erase_val(s.o, v) == N_ - r.n, "erase(str,value) returns the number of erased characters"); post(s.o, r);
+    Pre s = mk(); CH v = nd_ch(); bool drop[N_ + 1]; sz removed = 0;
+    for (sz i = 0; i < N_; i++) { drop[i] = s.p[i] == v; removed += drop[i]; }
+    CHK_KNOWN(C04_erase_all_contract, removed == N_);
+    filtered(s, drop, removed, k_erase_val(s.o, v));
 }
 Q q_erase_if()
 {
-    Pre s = mk(); CH v = nd_ch(); Md r; r.n = 0; r.fits = true;
-    for (sz i = 0; i < N_; i++) if (!(s.p[i] < v)) r.d[r.n++] = s.p[i];
-    CHK_KNOWN(C04_erase_all_contract, r.n == 0);
-    vf_assert(k_erase_if(s.o, v) == N_ - r.n, "erase_if(str,pred) returns the number of erased characters"); post(s.o, r);
+    Pre s = mk(); CH v = nd_ch(); bool drop[N_ + 1]; sz removed = 0;
+    for (sz i = 0; i < N_; i++) { drop[i] = s.p[i] < v; removed += drop[i]; }
+    CHK_KNOWN(C04_erase_all_contract, removed == N_);
+    filtered(s, drop, removed, k_erase_if(s.o, v));
 }
